@@ -23,4 +23,9 @@ theorem trace_direction_shape_tie : (Generated.C09.traceMergeDirectionShape && G
 /-- the accumulation loop of the stream row-path `limit.Execute` runs until `limit+offset` rows (`C09.limitLoop`) -/
 theorem stream_limit_shape_tie : Generated.C09.streamLimitLoopShape = true := rfl
 
+/-- both copies of `getDisjointParts` keep the largest max timestamp as group boundary (`C09.groupParts`) -/
+theorem disjoint_boundary_shape_tie : Generated.C09.disjointBoundaryShape = true := rfl
+/-- `segResult.remove` removes the sort value with the series (`C09.keepUnseen`) -/
+theorem seg_result_remove_shape_tie : Generated.C09.segResultRemoveShape = true := rfl
+
 end Banyan.Tie.C09
